@@ -21,6 +21,21 @@ class Unsupported(Exception):
         self.node = node
 
 
+class Obj:
+    """A record with attributes (identity equality) for evaluating guards over small object graphs."""
+    def __init__(self, **kw: Any):
+        self.__dict__.update(kw)
+
+    def __len__(self) -> int:
+        return self.__dict__["len"]
+
+    def __bool__(self) -> bool:
+        return True
+
+    def __repr__(self) -> str:
+        return "Obj(" + ", ".join(f"{k}={v!r}" for k, v in self.__dict__.items() if not isinstance(v, (Obj, tuple))) + ")"
+
+
 class Outcome:
     def __init__(self, kind: str, value: Any = None, node: Optional[ast.AST] = None):
         self.kind = kind  # 'raise' | 'return' | 'fall' | 'continue' | 'break'
@@ -38,10 +53,11 @@ SymFn = Callable[[ast.expr], Any]
 
 
 class Evaluator:
-    def __init__(self, env: Dict[str, Any], sym: Optional[SymFn] = None, opaque_return: bool = True):
+    def __init__(self, env: Dict[str, Any], sym: Optional[SymFn] = None, opaque_return: bool = True, ignore_calls: Iterable[str] = ()):
         self.env = dict(env)
         self.sym = sym
         self.opaque_return = opaque_return
+        self.ignore_calls = set(ignore_calls)
 
     # ------------------------------------------------------------- expressions
     def ev(self, e: ast.expr) -> Any:
@@ -61,7 +77,21 @@ class Evaluator:
             k = ast.unparse(e)
             if k in self.env:
                 return self.env[k]
+            try:
+                base = self.ev(e.value)
+            except Unsupported:
+                raise Unsupported(e, "unbound attribute")
+            if isinstance(base, Obj) and e.attr in base.__dict__:
+                return base.__dict__[e.attr]
             raise Unsupported(e, "unbound attribute")
+        if isinstance(e, ast.Call) and isinstance(e.func, ast.Name) and e.func.id in ("len", "max", "min", "abs", "int", "bool", "sum", "any", "all") \
+                and all(k.arg == "default" for k in e.keywords):
+            args = [self.ev(a) for a in e.args]
+            kw = {k.arg: self.ev(k.value) for k in e.keywords}
+            try:
+                return {"len": len, "max": max, "min": min, "abs": abs, "int": int, "bool": bool, "sum": sum, "any": any, "all": all}[e.func.id](*args, **kw)
+            except Exception:
+                raise Unsupported(e)
         if isinstance(e, (ast.Tuple, ast.List, ast.Set)):
             return tuple(self.ev(x) for x in e.elts)
         if isinstance(e, ast.UnaryOp):
@@ -143,6 +173,22 @@ class Evaluator:
             raise Unsupported(e)
         if isinstance(e, ast.IfExp):
             return self.ev(e.body) if self.ev(e.test) else self.ev(e.orelse)
+        if isinstance(e, (ast.GeneratorExp, ast.ListComp)) and len(e.generators) == 1 and isinstance(e.generators[0].target, ast.Name):
+            g = e.generators[0]
+            seq = self.ev(g.iter)
+            if not isinstance(seq, (tuple, range)):
+                raise Unsupported(e)
+            out = []
+            saved = self.env.get(g.target.id, None)
+            for item in seq:
+                self.env[g.target.id] = item
+                if all(self.ev(c) for c in g.ifs):
+                    out.append(self.ev(e.elt))
+            if saved is None:
+                self.env.pop(g.target.id, None)
+            else:
+                self.env[g.target.id] = saved
+            return tuple(out)
         raise Unsupported(e)
 
     # -------------------------------------------------------------- statements
@@ -165,6 +211,8 @@ class Evaluator:
             if isinstance(st.value, ast.Call):
                 f = st.value.func
                 if isinstance(f, ast.Attribute) and isinstance(f.value, ast.Name) and f.value.id in ("logger", "logging"):
+                    return None
+                if isinstance(f, ast.Attribute) and f.attr in self.ignore_calls:
                     return None
             raise Unsupported(st)
         if isinstance(st, ast.Pass):
@@ -194,27 +242,18 @@ class Evaluator:
         if isinstance(st, ast.For):
             # only `for <name> in range(<int exprs>)` with a small bound
             it = st.iter
+            if isinstance(st.target, ast.Name) and not st.orelse and not (isinstance(it, ast.Call) and isinstance(it.func, ast.Name) and it.func.id == "range"):
+                seq = self.ev(it)
+                if isinstance(seq, tuple):
+                    return self._loop(st, seq)
+                raise Unsupported(st)
             if not (isinstance(st.target, ast.Name) and isinstance(it, ast.Call) and isinstance(it.func, ast.Name)
                     and it.func.id == "range" and 1 <= len(it.args) <= 3 and not st.orelse):
                 raise Unsupported(st)
             rargs = [self.ev(a) for a in it.args]
             if not all(isinstance(a, int) for a in rargs) or len(range(*rargs)) > 4096:
                 raise Unsupported(st)
-            for i in range(*rargs):
-                self.env[st.target.id] = i
-                brk = False
-                for s in st.body:
-                    o = self.step(s)
-                    if o is not None:
-                        if o.kind == "continue":
-                            break
-                        if o.kind == "break":
-                            brk = True
-                            break
-                        return o
-                if brk:
-                    break
-            return None
+            return self._loop(st, range(*rargs))
         if isinstance(st, ast.Continue):
             return Outcome("continue", None, st)
         if isinstance(st, ast.Break):
@@ -238,6 +277,24 @@ class Evaluator:
             self.env[k] = self.ev(binop)
             return None
         raise Unsupported(st)
+
+    def _loop(self, st: ast.For, seq: Any) -> Optional[Outcome]:
+        if True:
+            for i in seq:
+                self.env[st.target.id] = i
+                brk = False
+                for s in st.body:
+                    o = self.step(s)
+                    if o is not None:
+                        if o.kind == "continue":
+                            break
+                        if o.kind == "break":
+                            brk = True
+                            break
+                        return o
+                if brk:
+                    break
+            return None
 
 
 def grid(names: List[str], lo: int, hi: int, constraints: Optional[Callable[[Dict[str, int]], bool]] = None,
